@@ -58,6 +58,23 @@ type Entry struct {
 	// interval in which an implementation with one-second clock granularity may
 	// make it disappear.
 	Exact, WinLo, WinHi time.Time
+	// How and when the deadline was attached (relative time-to-live only): class
+	// is the attaching command form ("expire", "setex", "set-ex", "set-px"), Rel the
+	// time-to-live, AttachAt the instant.  Whatever instant inside the window an
+	// implementation uses as *the* deadline, it is a non-decreasing function of
+	// the attach instant for one form and one time-to-live: see DB.Gone.
+	DClass   string
+	DRel     time.Duration
+	AttachAt time.Time
+}
+
+// goneRec remembers that a key whose deadline was attached at AttachAt (form
+// Class, time-to-live Rel) was found gone at GoneAt.
+type goneRec struct {
+	Class    string
+	Rel      time.Duration
+	AttachAt time.Time
+	GoneAt   time.Time
 }
 
 func (e *Entry) clone() *Entry {
@@ -91,10 +108,17 @@ func (e *Entry) clone() *Entry {
 	return &c
 }
 
-type DB struct{ Keys map[string]*Entry }
+type DB struct {
+	Keys map[string]*Entry
+	// Gone: expiries observed so far (one deadline per key, the same for every
+	// command: a key whose deadline was attached no later, in the same form and
+	// with the same time-to-live, as that of a key already found gone cannot be
+	// seen alive afterwards).
+	Gone []goneRec
+}
 
 func (d *DB) clone() *DB {
-	c := &DB{Keys: make(map[string]*Entry, len(d.Keys))}
+	c := &DB{Keys: make(map[string]*Entry, len(d.Keys)), Gone: append([]goneRec(nil), d.Gone...)}
 	for k, v := range d.Keys {
 		c.Keys[k] = v.clone()
 	}
@@ -366,9 +390,41 @@ func (d *DB) purge(now time.Time, dead map[string]bool) {
 			continue
 		}
 		if !now.Before(e.WinHi) || (dead[k] && !now.Before(e.WinLo)) {
+			d.noteGone(e, now)
 			delete(d.Keys, k)
 		}
 	}
+	// one deadline per key, whoever asks: a key attached no later (same form, same
+	// time-to-live) than one already found gone has gone as well
+	for changed := true; changed; {
+		changed = false
+		for k, e := range d.Keys {
+			if e.HasTTL && e.DClass != "" && !now.Before(e.WinLo) && d.goneBefore(e, now) {
+				d.noteGone(e, now)
+				delete(d.Keys, k)
+				changed = true
+			}
+		}
+	}
+}
+
+func (d *DB) noteGone(e *Entry, now time.Time) {
+	if e.DClass == "" || !now.Before(e.WinHi) {
+		return // absolute deadline, or outside any window: nothing to learn from it
+	}
+	d.Gone = append(d.Gone, goneRec{Class: e.DClass, Rel: e.DRel, AttachAt: e.AttachAt, GoneAt: now})
+	if len(d.Gone) > 32 {
+		d.Gone = d.Gone[len(d.Gone)-32:]
+	}
+}
+
+func (d *DB) goneBefore(e *Entry, now time.Time) bool {
+	for _, g := range d.Gone {
+		if g.Class == e.DClass && g.Rel == e.DRel && !g.AttachAt.Before(e.AttachAt) && !g.GoneAt.After(now) {
+			return true
+		}
+	}
+	return false
 }
 
 // AmbiguousKeys lists keys of the connection's database whose expiry window
@@ -387,16 +443,24 @@ func (m *Model) AmbiguousKeys(conn int, now time.Time) []string {
 func (e *Entry) setDeadline(exact, lo, hi time.Time) {
 	e.HasTTL = true
 	e.Exact, e.WinLo, e.WinHi = exact, lo, hi
+	e.DClass, e.DRel, e.AttachAt = "", 0, time.Time{}
+}
+
+// keepDeadline copies old's deadline (KEEPTTL, RENAME) with its provenance.
+func (e *Entry) keepDeadline(old *Entry) {
+	e.setDeadline(old.Exact, old.WinLo, old.WinHi)
+	e.DClass, e.DRel, e.AttachAt = old.DClass, old.DRel, old.AttachAt
 }
 
 func floorSec(t time.Time) time.Time { return t.Truncate(time.Second) }
 
 // deadlineIn attaches "ttl from now" the way the property reads it.
-func (e *Entry) expireIn(now time.Time, ttl time.Duration) {
+func (e *Entry) expireIn(now time.Time, ttl time.Duration, class string) {
 	exact := now.Add(ttl)
 	lo := floorSec(now).Add(ttl.Truncate(time.Second))
 	hi := floorSec(exact).Add(time.Second)
 	e.setDeadline(exact, lo, hi)
+	e.DClass, e.DRel, e.AttachAt = class, ttl, now
 }
 
 func (e *Entry) expireAt(unix int64) {
@@ -525,6 +589,9 @@ func (m *Model) stateKey() string {
 		}
 		sort.Strings(keys)
 		fmt.Fprintf(&sb, "db%d:", i)
+		for _, g := range d.Gone {
+			fmt.Fprintf(&sb, "gone(%s,%d,%d,%d)", g.Class, g.Rel, g.AttachAt.UnixNano(), g.GoneAt.UnixNano())
+		}
 		for _, k := range keys {
 			e := d.Keys[k]
 			sb.WriteString(strconv.Quote(k))
